@@ -31,8 +31,18 @@ func (g *GcsEmu) makeBucketListResults(ctx context.Context, baseUrl HttpBaseUrl,
 		}
 	}
 
+	// A page token that names a collapsed prefix (it ends with the delimiter that closes the prefix)
+	// resumes after every name below that prefix.
+	skipGroup := ""
+	if delimiter != "" && strings.HasPrefix(cursor, prefix) && strings.HasSuffix(cursor, delimiter) {
+		if pos := strings.Index(cursor[len(prefix):], delimiter); pos >= 0 && len(prefix)+pos+len(delimiter) == len(cursor) {
+			skipGroup = cursor
+		}
+	}
+
 	moreResults := false
 	count := 0
+	lastEntry := "" // the last item or collapsed prefix put on this page
 	err := g.store.Walk(ctx, bucket, func(ctx context.Context, filename string, fInfo os.FileInfo) error {
 		dbgWalk("walk: %s", filename)
 
@@ -64,29 +74,40 @@ func (g *GcsEmu) makeBucketListResults(ctx context.Context, baseUrl HttpBaseUrl,
 			dbgWalk("%q < prefix=%q skipping", filename, prefix)
 			return nil
 		}
+		if skipGroup != "" && strings.HasPrefix(filename, skipGroup) {
+			dbgWalk("%q below the prefix %q of the previous page, skipping", filename, skipGroup)
+			return nil
+		}
 
+		// See if the filename (beyond the prefix) contains delimiter, if it does, don't record the item,
+		// instead record the prefix (including the delimiter).
+		itemPrefix := ""
+		if delimiter != "" {
+			withoutPrefix := strings.TrimPrefix(filename, prefix)
+			if delimiterPos := strings.Index(withoutPrefix, delimiter); delimiterPos >= 0 {
+				// Got a hit, reconstruct the item's prefix, including the trailing delimiter
+				itemPrefix = filename[:len(prefix)+delimiterPos+len(delimiter)]
+				if seenPrefixes[itemPrefix] {
+					return nil // already on this page; takes no further room
+				}
+			}
+		}
+
+		// Items and collapsed prefixes both count towards the page size.
 		if count >= maxResults {
 			moreResults = true
 			return errAbort
 		}
 		count++
 
-		if delimiter != "" {
-			// See if the filename (beyond the prefix) contains delimiter, if it does, don't record the item,
-			// instead record the prefix (including the delimiter).
-			withoutPrefix := strings.TrimPrefix(filename, prefix)
-			delimiterPos := strings.Index(withoutPrefix, delimiter)
-			if delimiterPos >= 0 {
-				// Got a hit, reconstruct the item's prefix, including the trailing delimiter
-				itemPrefix := filename[:len(prefix)+delimiterPos+len(delimiter)]
-				if !seenPrefixes[itemPrefix] {
-					seenPrefixes[itemPrefix] = true
-					prefixes = append(prefixes, itemPrefix)
-				}
-				return nil
-			}
+		if itemPrefix != "" {
+			seenPrefixes[itemPrefix] = true
+			prefixes = append(prefixes, itemPrefix)
+			lastEntry = itemPrefix
+			return nil
 		}
 
+		lastEntry = filename
 		found = append(found, item{
 			filename: filename,
 			fInfo:    fInfo,
@@ -113,10 +134,12 @@ func (g *GcsEmu) makeBucketListResults(ctx context.Context, baseUrl HttpBaseUrl,
 	verifYield("gcs.list.walked")
 	// Resolve the found items.
 	var items []*storage.Object
+	resolvedAll := true
 	for _, item := range found {
 		if obj, err := g.store.ReadMeta(baseUrl, bucket, item.filename, item.fInfo); err != nil {
 			// return our partial results + the cursor so that the client can retry from this point
 			g.log(nil, "failed to resolve: %s", item.filename)
+			resolvedAll = false
 			break
 		} else if obj != nil {
 			// obj is nil when the object was deleted after the walk saw it
@@ -124,8 +147,11 @@ func (g *GcsEmu) makeBucketListResults(ctx context.Context, baseUrl HttpBaseUrl,
 		}
 	}
 
+	// The next page starts after the last entry of this one, be it an item or a collapsed prefix.
 	var nextPageToken = ""
-	if moreResults && len(items) > 0 {
+	if moreResults && resolvedAll && lastEntry != "" {
+		nextPageToken = gcsutil.EncodePageToken(lastEntry)
+	} else if moreResults && len(items) > 0 {
 		lastItemName := items[len(items)-1].Name
 		nextPageToken = gcsutil.EncodePageToken(lastItemName)
 	}
